@@ -34,6 +34,36 @@ CHECKS = {
  "C15": ("hostile-input monitor: recovered panics, worker deaths under RLIMIT_AS, per-call TotalAlloc deltas, call watchdog",
          "Exploration: random/mutated/extreme-count inputs to all decoders, to the HTTP client framing loops (stub server) and to Open; every operation on handles that opened on damaged files; verdict from panics, process deaths, allocation deltas against input-proportional bounds and a 30 s per-call watchdog.",
          "Allocation measured via runtime.MemStats.TotalAlloc around single-goroutine calls; address space capped at 6 GiB.", "2/C15"),
+ "C08": ("effect oracle over the real copy binary: library fetches of source and destination at the clock the command printed",
+         "Exploration: generated source/destination states (absent, never written, equal, finer perturbed while coarser agree, unrelated) x windows x archive selections x NaN modes x single/glob; after exit 0 every selected slot of the destination must hold the source's value; source unchanged; absent destination created with the requested header even when nothing is copied; layout mismatch writes nothing; repetition is a no-op; diff afterwards is clean.",
+         "Oracle evaluated at the command's own printed clock; numeric value equality (+0 == -0).", "2/C08"),
+ "C09": ("difference-set oracle over the real diff binary (records parsed back bit-exactly), incl. one side served by the real server",
+         "Exploration: pairs that are identical / same content / perturbed / special values (ulp apart, signed zero, NaN payloads, Inf) / unrelated, missing sides, layout mismatch, globs, windows and archive selections; verdict and the printed records must equal the independently computed difference set; symmetry judged when both runs printed the same clock.",
+         "Oracle at the printed clock; glob patterns matching nothing on the source side not judged.", "2/C09"),
+ "C10": ("independent slot-wise NaN-skipping sum vs. the sum read path (export hook, virtual clocks) and the real sum binary",
+         "Exploration: item trees with exact-addition values and adversarial hole patterns (first file has the hole, single contributor, nobody), windows incl. retention edges, archive selections, unclean base-directory spellings, patterns matching nothing, a file with another layout.",
+         "Values chosen so that addition is exact in any order.", "2/C10"),
+ "C11": ("effect oracle for sum-copy (destination == independent sum) + perturbation oracle for sum-diff through the real binaries",
+         "Exploration: C10 trees x destination states x windows x archive selections; after sum-copy the destination equals the independently computed sum (NaN included); sum-diff is clean; after perturbing one item's destination with the library, sum-diff must list exactly the deviating slots and exit 1 even when the deviating item is not the last one.",
+         "Oracle at the per-item printed clock.", "2/C11"),
+ "C12": ("differential monitor: every read path executed against the directory and against a real server child process serving it",
+         "Exploration through real HTTP round trips: the commands' own read functions (export hook) at virtual clocks for ~60 requests per case (all archive selections, windows, missing/corrupt files, escaped names, bad patterns) and the real binary (view, view-raw, sum, diff either side, sum-diff, copy) with local and remote run inside one wall-clock second; success/failure, not-exist classification, results and outputs must coincide.",
+         "nil series == empty zero series; error wording not compared.", "2/C12"),
+ "C13": ("session-history monitor: mutual-exclusion intervals on CLOCK_MONOTONIC across goroutines and processes, generation-stamp uniformity, porcupine linearizability check, flock/descriptor probes after failed Open/Create, race detector",
+         "Exploration of schedules: writer/reader sessions with injected sleeps between client-boundary steps, in-process and cross-process; verdict from recorded events (interval overlap, lost updates, torn reads, porcupine on an integer-register model) and from non-blocking flock probes with GC disabled after every failure mode of Open/Create.",
+         "Only schedules actually produced are covered; contention is measured and required.", "2/C13"),
+ "C16": ("fault-injection product over the real binary with an exit-code / effect oracle",
+         "Fault enumeration at the process boundary (thorough tier = the whole product, quick tier = every (subcommand, fault) and (subcommand, archive selection) pair): subcommand x archive selection x window x environment fault (unopenable/unwritable/full text-out, missing/garbage/truncated source, read-only or impossible destination, layout mismatch, missing destination) x text-out mode; no panic text, exit code in {0,1,2}, success only with observable work, every fault reported.",
+         "Runs as root and drops the child to uid 65534 for permission faults.", "2/C16"),
+ "C17": ("Go race detector in harness, CLI and server processes + concurrent-vs-sequential result equality",
+         "Exploration of schedules under the race detector: many goroutines on one cold handle, the sum read path with forced out-of-order completion, the -race server under 8-64 parallel clients over all endpoints; every concurrent result compared bit-exactly with the same request executed alone; every race report is a violation.",
+         "Races are only seen in executed schedules; in-flight overlap is measured.", "2/C17"),
+ "C18": ("text-output parser vs. library fetch and the harness' own byte-level slot parse, inside a stable wall-clock second",
+         "Exploration: files with 17-digit, huge/tiny, infinite, NaN, signed-zero values, stale laps, never-written archives; view/view-raw with archive selections, windows incl. from==until unaligned to coarser steps, header and sort switches; every record parsed back and compared bit-exactly; cross relation view => view-raw.",
+         "Stable-second technique for the wall clock; discarded runs counted.", "2/C18"),
+ "C20": ("oracle over files produced by the command's own generation path at virtual instants (export hook) and by the real generate binary at awaited wall-clock phases",
+         "Exploration: layouts incl. N_fine == ratio, maxima, fill on/off, instants aligned/unaligned to every step, the late phase where the oldest finer point meets the newest coarser interval, instants beyond 2^31; header, emptiness, value range, and coarser == sum of fully retained finer slots are checked exactly.",
+         "CLI instants are wall clock (phase awaited); other phases from the function-level driver.", "2/C20"),
  "C19": ("exhaustive round-trip enumeration (thorough) + arithmetic-meaning oracle over enumerated and boundary strings",
          "Quick: boundaries and millions of random round trips plus all strings up to length 4 over the parsers' alphabet. Thorough: ALL 2^31 durations and ALL 2^32 timestamps round-tripped (exhaustive for those two domains), all strings up to length 5; accepted strings must carry their exact arithmetic meaning (big integers / days-from-civil), must-reject classes must be rejected.",
          "Strings in neither class (redundant leading zeros, fractional seconds) are not judged for acceptance.", "2/C19"),
@@ -61,7 +91,7 @@ def main():
                 "evidence_file": "evidence/%s.json" % pid,
                 "replay_cmd_template": "./check %s --replay {path}" % pid,
                 "engine": "vcheck",
-                "level_claimed": {"category": "exploration", "text": text, "design_ref": "DESIGN.md section " + ref},
+                "level_claimed": {"category": "fault_enumeration" if pid == "C16" else "exploration", "text": text, "design_ref": "DESIGN.md section " + ref},
                 "level_note": note,
                 "technique": "runtime monitoring: " + tech,
             })
